@@ -13,7 +13,7 @@ CLAIMED = {
         technique='Lean 4 proof: scope-stack machine = environment-passing Lua resolver for all chunks (mutual structural induction with Rel/Pure/Grow, permutation via List.count), hoisting invariants carried through the same induction (Safe.lean: Inv/Good/Step), two-directional lint theorem C01_sound / C01_complete + three-way correspondence real ScopeManager & diagnostics / machine / resolver',
         design="§4 C01"),
     "C02": dict(
-        text="Machine-checked (Lean 4), for every chunk: C02_used_iff — the scope-stack machine of Scope/Core.lean (scope stack with `...` barriers, reference log, try_hoist with its rewrite of earlier unresolved reads, eager reads before closures, if/elseif scope juggling, loop variables, methods, varargs, declarations with `shadowed`, plain-name writes) records a read resolving to a declaration iff Lua's scoping rules bind some expression-position occurrence to it (corollary of C01_log), so `no recorded read` is `never read`; for all scope tables of the full ScopeVisitor model: a reported variable has no reference analysed as a read, is not ignored and is not an ignorable self (C02_lint_sound, C02_read_protects, C02_plain_read).",
+        text="Machine-checked (Lean 4), for every chunk: C02_used_iff — the scope-stack machine of Scope/Core.lean (scope stack with `...` barriers, reference log, try_hoist with its rewrite of earlier unresolved reads, eager reads before closures, if/elseif scope juggling, loop variables, methods, varargs, declarations with `shadowed`, plain-name writes) records a read resolving to a declaration iff Lua's scoping rules bind some expression-position occurrence to it (corollary of C01_log); C02_value_used_iff — it records a *value use* (any expression position except the root of an indexed assignment target) of a declaration iff Lua binds to it an occurrence of kind `value`; C02_neverUsed_iff — a declaration is among those the lint may report (none of its recorded reads uses the value) iff it is a local / parameter / loop variable / local function / implicit self to which Lua binds no value-using occurrence: a variable an expression uses is never among them, a variable never mentioned again always is; for all scope tables of the full ScopeVisitor model: a reported variable has no reference analysed as a read, is not ignored and is not an ignorable self (C02_lint_sound, C02_read_protects, C02_plain_read).",
         note=PROOF_NOTE + "PARTIAL, stated: the read/write classification of each reference (assignment targets, indexed targets, compound paths, the documented `observes: write` / static-table analysis) lives in the full model (Scope/Model.lean), which is compared table-by-table with the implementation on every run but is not tied to the machine by proof; the property's first sentence is false by design for the documented `observes: write` analysis (recorded finding). The three-way run judges the real diagnostics by the resolver (used-but-reported / unmentioned-not-reported clauses, also under non-default ignore patterns).",
         technique='Lean 4 proof of resolution equivalence (read recorded <=> Lua binds an occurrence to the declaration) + lint theorems over the scope tables + three-way correspondence real ScopeManager tables & diagnostics / Lean ScopeVisitor model and machine / Lua resolver',
         design="§4 C02"),
